@@ -179,7 +179,8 @@ class Models:
             return None
         if np.startswith('std::iter::Iterator::') or np == 'std::iter::IntoIterator::into_iter':
             name = np.rsplit('::', 1)[-1]
-        elif np.endswith('as std::iter::Iterator>::next') or np.endswith('as std::iter::IntoIterator>::into_iter'):
+        elif np.startswith('<') and (' as std::iter::Iterator>::' in np or np.endswith('as std::iter::IntoIterator>::into_iter')):
+            # a concrete iterator's own (specialised) implementation of a provided method, e.g. slice::Iter::find_map
             name = np.rsplit('::', 1)[-1]
         else:
             return None
@@ -899,7 +900,7 @@ class Models:
         """std::mem::drop"""
         v = args[0]
         if v is not None:
-            I.emit(st, fr, {'k': 'drop', 'val': I.resolve(st, v), 'ty': c.get('gargs', ['?'])[0] if c else '?', 'explicit': True})
+            I.emit(st, fr, {'k': 'drop', 'val': I.resolve(st, v), 'ty': (c.get('gargs') or ['?'])[0] if c else '?', 'explicit': True})
         return self.finish(I, st, fr, t, cont, ZST())
 
     def m_io_error_new(self, I, st, fr, t, c, np, args, cont):
